@@ -1,13 +1,15 @@
 /- C04: a frame's body-length field equals the number of body bytes emitted (frame_len_exact at Gen.env);
    the four self-measuring frames were recognised with the pinned shape. -/
-import FinProto.Obl.SPinnedTypes
+import FinProto.Checks
+import FinProto.Gen
+import FinProto.Pinned
 import FinProto.Props.EncLemmas
 set_option linter.defProp false
 namespace FinProto.Obl
 open FinProto
 
-theorem C04_frames_recognised : Gen.types.map (·.frame) = Pinned.types.map (·.frame) := by
-  rw [gen_types_eq_pinned]
+/-- the self-measuring frames of the current source are exactly the pinned ones (other types may come and go) -/
+theorem C04_frames_recognised : Gen.types.filterMap (·.frame) = Pinned.types.filterMap (·.frame) := by decide +kernel
 
 /-- `frame_len_exact` at the regenerated environment -/
 def C04_repo := @frame_len_exact Gen.env
